@@ -435,6 +435,19 @@ func c01(r *engine.Report, p *engine.Program) {
 		r.Check("R5-direct-neighbour", "updateRoutingTable: relaxation on strict improvement (cost[node]+edge < cost[neighbour])", urt.Pos(), relax, "a strict comparison with the sum cost[node]+edge on the smaller side guards the update", "no strict comparison 'cost[node]+edge < cost[neighbour]' guards the relaxation (a non-strict test lets equal-cost paths flip the predecessor forever)")
 	}
 	ownAdvertRules(r, p)
+	{
+		okA, whyA := adjacencyAfterInsertion(p)
+		r.Check("R7-no-collateral-removal", "runProtocol: the link's cost rows are written only after the session was admitted to the connection table", token.NoPos, okA,
+			"no write of knownConnectionCosts in runProtocol is reachable before the insertion into connections", whyA)
+		// lock order among the Netceptor locks, channel hand-offs included (shared with C07-O6)
+		var scope []*ssa.Function
+		for _, fn := range p.Funcs() {
+			if inPkg(fn, "netceptor") && !engine.IsMock(fn) {
+				scope = append(scope, fn)
+			}
+		}
+		lockOrderRule(r, p, "R2-lock-order", scope, netceptorLockFields(p))
+	}
 	// R7 the local row stays truthful: a session that is merely being refused never removes the
 	// adjacency of the live session with the same peer (shared with C11-R4 / C07-O8)
 	if rp := p.Func("(*netceptor.Netceptor).runProtocol"); rp != nil {
